@@ -19,7 +19,7 @@ impl Source {
         match self {
             Source::Prog(ops) => {
                 let store = shared_empty();
-                let env = ExecEnv { store: store.clone(), start_pos: 0, sink_io: ioh(Policy::Pure), sources: vec![], src_io: ioh(Policy::Pure), stop_on_err: false, final_finish: true };
+                let env = ExecEnv { store: store.clone(), start_pos: 0, sink_io: ioh(Policy::Pure), sources: vec![], src_io: ioh(Policy::Pure), stop_on_err: false, final_finish: true, pre_started: false };
                 let _ = run_program(ops, &env);
                 crate::simio::image_of(&store)
             }
@@ -390,4 +390,77 @@ pub fn resolve_src(infos: &[Vec<SrcEntry>], si: usize, idx: usize, how: u8) -> O
     } else {
         Some(e.clone())
     }
+}
+
+/// simplifications of a builder layout (for shrinking)
+pub fn shrink_layout(l: &Layout) -> Vec<Layout> {
+    use crate::indep::build::BEntry;
+    let mut out = vec![];
+    for i in (0..l.entries.len()).rev() {
+        let mut x = l.clone();
+        x.entries.remove(i);
+        out.push(x);
+    }
+    let simple = |x: &mut Layout| {
+        x.prefix = 0;
+        x.trailing = 0;
+        x.central_rot = 0;
+        x.central_rev = false;
+        x.gap_before_cd = 0;
+    };
+    {
+        let mut x = l.clone();
+        simple(&mut x);
+        if x != *l {
+            out.push(x);
+        }
+    }
+    if l.force_z64_end {
+        let mut x = l.clone();
+        x.force_z64_end = false;
+        out.push(x);
+    }
+    if !l.comment.0.is_empty() {
+        let mut x = l.clone();
+        x.comment = Hex(vec![]);
+        out.push(x);
+    }
+    for i in 0..l.entries.len() {
+        let e = &l.entries[i];
+        let d = BEntry { name: e.name.clone(), content: e.content.clone(), enc: e.enc.clone(), method: e.method, ..Default::default() };
+        if d != *e {
+            let mut x = l.clone();
+            x.entries[i] = d;
+            out.push(x);
+        }
+        let fields: Vec<Box<dyn Fn(&mut BEntry)>> = vec![
+            Box::new(|e| e.method = 0),
+            Box::new(|e| e.dd = 0),
+            Box::new(|e| e.z64_local = false),
+            Box::new(|e| e.z64_central = 0),
+            Box::new(|e| e.extra_local = Hex(vec![])),
+            Box::new(|e| e.extra_central = Hex(vec![])),
+            Box::new(|e| e.comment = Hex(vec![])),
+            Box::new(|e| e.gap_before = 0),
+            Box::new(|e| e.enc = None),
+            Box::new(|e| e.stored_blocks = None),
+            Box::new(|e| e.name = Hex(b"a".to_vec())),
+            Box::new(|e| e.eattr = 0o100644 << 16),
+            Box::new(|e| e.sys = 3),
+            Box::new(|e| e.dos = (0x21, 0)),
+        ];
+        for f in fields {
+            let mut x = l.clone();
+            f(&mut x.entries[i]);
+            if x != *l {
+                out.push(x);
+            }
+        }
+        for c2 in e.content.shrinks() {
+            let mut x = l.clone();
+            x.entries[i].content = c2;
+            out.push(x);
+        }
+    }
+    out
 }
